@@ -5,6 +5,8 @@ root = '/verif/seeded'
 for name in sorted(os.listdir(root)):
     d = os.path.join(root, name)
     if not os.path.isdir(d): continue
+    # only seeds evaluated in this session have a confirm.log; older meta.json files are left alone
+    if not os.path.exists(os.path.join(d, 'confirm.log')): continue
     agent = {}
     try: agent = json.load(open(os.path.join(d, 'meta.agent.json')))
     except Exception: pass
